@@ -278,7 +278,7 @@ class _OneHot(torch.utils.data.Dataset):
         return x, torch.tensor(i)
 
 
-def run_real_bmm(cfg, sizes, max_physical, acct="rdp", use_bmm=True, batches=None, poisson=None):
+def run_real_bmm(cfg, sizes, max_physical, acct="rdp", use_bmm=True, batches=None, poisson=None, zg2=False):
     """Train on logical batches of the given sizes (token ids consecutive) through the real
     BatchMemoryManager / BatchSplittingSampler + DataLoader; returns the canonical lines after
     (fetch = the sampler's signal), forward/backward, step, zero_grad of every physical batch, and the
@@ -321,6 +321,8 @@ def run_real_bmm(cfg, sizes, max_physical, acct="rdp", use_bmm=True, batches=Non
                 lines.append(eng.do(("fwdbwd_t", x)))
                 lines.append(eng.do(("step",)))
                 lines.append(eng.do(("ozg",)))
+                if zg2:      # a loop that clears at the bottom AND at the top of every iteration: zero_grad twice between steps
+                    eng.do(("ozg",))
 
     if use_bmm:
         with BatchMemoryManager(data_loader=dl, max_physical_batch_size=max_physical, optimizer=eng.opt) as loader:
